@@ -469,8 +469,23 @@ class Compiler:
                 name = decl.id.name
                 if decl.init:
                     self._compile_named_value(decl.init, name)
+                elif self._in_function:
+                    # `var x;` only declares: a value the variable already has stays
+                    # (locals start out undefined)
+                    self._add_local(name)
+                    continue
                 else:
+                    # At program level `var x;` defines x as undefined only if there
+                    # is no x yet: if (typeof x === "undefined") x = undefined;
+                    self._emit(OpCode.TYPEOF_NAME, self._add_constant(name))
+                    self._emit(OpCode.LOAD_CONST, self._add_constant("undefined"))
+                    self._emit(OpCode.SEQ)
+                    skip = self._emit_jump(OpCode.JUMP_IF_FALSE)
                     self._emit(OpCode.LOAD_UNDEFINED)
+                    self._emit(OpCode.STORE_NAME, self._add_name(name))
+                    self._emit(OpCode.POP)
+                    self._patch_jump(skip)
+                    continue
 
                 if self._in_function:
                     # Inside function: use local variable
